@@ -370,6 +370,7 @@ pub fn dump_build(
     >,
     merge_opts: Option<&im::HashMap<String, MergeOption>>,
     global_flat: &im::HashMap<&String, String>,
+    global_env: &Env,
     outfile: &str,
     tasks: &indexmap::IndexMap<String, Result<crate::Task, crate::TaskError>>,
 ) {
@@ -418,6 +419,8 @@ pub fn dump_build(
         "provided": provided,
         "modules": mods,
         "global_flat": flat_json(global_flat),
+        "global_env": env_json(global_env),
+        "var_options": merge_opts.is_some(),
         "outfile": outfile,
         "tasks": tasks,
     }));
